@@ -214,7 +214,7 @@ func checkC02(p *Prog, c *Check) {
 				}
 				return spec.choose(s)
 			}
-			st, why := p.buildState(tn, choose, wp)
+			st, why := p.buildStateSpec(tn, spec, choose, wp)
 			if st == nil {
 				if errs["R2.3"] == "" {
 					errs["R2.3"] = "state " + spec.name + ": " + why
@@ -274,6 +274,23 @@ func checkC02(p *Prog, c *Check) {
 	}
 	checkIdentConstants(p, c)
 	checkFlagConstants(p, c)
+	// structural part of R2.4 (shared with C10 R10.8): for all states, not only the abstract ones
+	top := map[*ssa.Function]bool{}
+	for _, tn := range packetTypeNames() {
+		if f := p.Method(tn, "fill"); f != nil {
+			top[f] = true
+		}
+	}
+	for _, f := range lengthPrefixFindings(p, top) {
+		switch {
+		case f.ok:
+			c.OK("R2.4", f.cons, f.pos, f.how)
+		case f.unk:
+			c.Unk("R2.4", f.cons, f.pos, f.how)
+		default:
+			c.Bad("R2.4", f.cons, f.pos, f.how)
+		}
+	}
 	c.Floor("packet types", len(packetTypeNames()), 15, "15 MQTT packet types")
 }
 
